@@ -38,6 +38,7 @@ use klukai_agent::api::public::{TimeoutParams, api_v1_db_schema, api_v1_transact
 use klukai_types::agent::Agent;
 use klukai_types::api::{ChangeId, ColumnName, ExecResult, QueryEvent, QueryEventMeta, RowId, SqliteValue, Statement, TableName};
 use klukai_types::base::CrsqlDbVersion;
+use klukai_types::broadcast::{BroadcastInput, BroadcastV1, ChangeV1, Changeset};
 use klukai_types::change::Change;
 use klukai_types::config::Config;
 use klukai_types::pubsub::{ChangeType, Matcher, MatcherHandle, pack_columns};
@@ -151,6 +152,9 @@ struct World {
     last_sentinel: Instant,
     fails: Vec<String>,
     tags: Vec<String>,
+    matched_version: Arc<std::sync::atomic::AtomicU64>,
+    /// 0 = first execution of the case, 1 = retry after a timeout
+    attempt: u32,
 }
 
 fn cells_of(vals: &[SqliteValue]) -> Vec<String> {
@@ -242,7 +246,7 @@ fn show_items(items: &[Itm], closed: bool) -> String {
     if out.is_empty() { "-".into() } else { out.join(" ") }
 }
 
-async fn start_world(dir: &std::path::Path, rows: u64, bcap: u64) -> Result<World, String> {
+async fn start_world(dir: &std::path::Path, rows: u64, bcap: u64, attempt: u32) -> Result<World, String> {
     let (tripwire, worker, tx) = Tripwire::new_simple();
     let conf = Config::builder()
         .db_path(dir.join("corrosion.db").display().to_string())
@@ -255,10 +259,22 @@ async fn start_world(dir: &std::path::Path, rows: u64, bcap: u64) -> Result<Worl
     if !status.is_success() {
         return Err(format!("schema: {:?}", body.0.results));
     }
-    // nobody gossips: drop what `broadcast_changes` hands to the (absent) broadcaster
+    // nobody gossips: what `broadcast_changes` hands to the (absent) broadcaster only tells the harness that every
+    // chunk of a local version has been through `match_changes` (the chunk loop is sequential, the last chunk's
+    // message is spawned after the last `match_changes` call)
     let (_dtx, drx) = klukai_types::channel::bounded(1, "c12_dummy");
     let mut rx_bcast = std::mem::replace(&mut opts.rx_bcast, drx);
-    tokio::spawn(async move { while rx_bcast.recv().await.is_some() {} });
+    let matched_version = Arc::new(std::sync::atomic::AtomicU64::new(0));
+    let mv = matched_version.clone();
+    tokio::spawn(async move {
+        while let Some(msg) = rx_bcast.recv().await {
+            if let BroadcastInput::AddBroadcast(BroadcastV1::Change(ChangeV1 { changeset: Changeset::Full { version, seqs, last_seq, .. }, .. })) = msg {
+                if *seqs.end() == last_seq {
+                    mv.fetch_max(version.0, std::sync::atomic::Ordering::SeqCst);
+                }
+            }
+        }
+    });
 
     if rows > 0 {
         let sql = format!("INSERT INTO t (id, v) WITH RECURSIVE c(x) AS (SELECT 1 UNION ALL SELECT x+1 FROM c WHERE x < {rows}) SELECT x, 0 FROM c");
@@ -331,6 +347,8 @@ async fn start_world(dir: &std::path::Path, rows: u64, bcap: u64) -> Result<Worl
         last_sentinel: Instant::now(),
         fails: vec![],
         tags: vec![],
+        matched_version,
+        attempt,
     })
 }
 
@@ -381,10 +399,16 @@ impl World {
         if !status.is_success() {
             return Err(format!("write failed: {:?}", resp.0.results));
         }
-        match resp.0.results.first() {
-            Some(ExecResult::Execute { rows_affected, .. }) => Ok(*rows_affected as u64),
-            other => Err(format!("write result {other:?}")),
+        let affected = match resp.0.results.first() {
+            Some(ExecResult::Execute { rows_affected, .. }) => *rows_affected as u64,
+            other => return Err(format!("write result {other:?}")),
+        };
+        if let Some(v) = resp.0.version {
+            // all candidates of this version are in the matcher's buffer before anybody nudges it
+            let mv = self.matched_version.clone();
+            wait_until("broadcast_changes to hand every chunk to match_changes", || mv.load(std::sync::atomic::Ordering::SeqCst) >= v).await?;
         }
+        Ok(affected)
     }
 
     /// waits until the matcher's watch shows `want_sent`; keeps nudging; drains `evt_rx` when `drain`
@@ -544,12 +568,32 @@ impl World {
     }
 
     /// every receiver that reads has read everything published so far
-    async fn settle(&self) -> Result<(), String> {
+    async fn settle(&mut self) -> Result<(), String> {
         if self.idle_receivers() {
             return Ok(());
         }
+        static SLOW: std::sync::atomic::AtomicU32 = std::sync::atomic::AtomicU32::new(0);
         let btx = self.btx.clone();
-        wait_until("the broadcast receivers to read what was published", || btx.len() == 0).await?;
+        // once this has timed out twice in this process the wait is shortened (every such case would time out)
+        let deadline = if SLOW.load(std::sync::atomic::Ordering::SeqCst) >= 2 { Duration::from_secs(5) } else { LONG };
+        let t0 = Instant::now();
+        while btx.len() != 0 {
+            if t0.elapsed() > deadline {
+                SLOW.fetch_add(1, std::sync::atomic::Ordering::SeqCst);
+                if self.attempt == 0 {
+                    return Err("timeout waiting for the broadcast receivers to read what was published".into());
+                }
+                // second attempt: this is an observation about the code, not about the machine
+                let held: Vec<String> = self.subs.iter().filter(|s| s.state == SubState::Held).map(|s| s.sid.clone()).collect();
+                let n = btx.len();
+                self.fails.push(format!(
+                    "buffering: {} published event(s) were not taken from the broadcast channel within {:?} although every receiver should be reading (held readers: {}): a subscriber is not buffering live events during its catch-up read",
+                    n, deadline, held.join(",")
+                ));
+                return Ok(());
+            }
+            tokio::time::sleep(Duration::from_millis(1)).await;
+        }
         for _ in 0..3 {
             tokio::task::yield_now().await;
         }
@@ -1109,7 +1153,7 @@ fn parse_mode(s: &str) -> Option<Mode> {
     }
 }
 
-async fn run_case(ops: &[String], dir: &std::path::Path) -> Result<Outcome, String> {
+async fn run_case(ops: &[String], dir: &std::path::Path, attempt: u32) -> Result<Outcome, String> {
     let mut w: Option<World> = None;
     let mut outputs = vec![];
     let mut tags: Vec<String> = vec![];
@@ -1122,7 +1166,7 @@ async fn run_case(ops: &[String], dir: &std::path::Path) -> Result<Outcome, Stri
         let r: Result<String, String> = match (toks.as_slice(), w.as_mut()) {
             (["tag", ..], _) => Ok("ok".into()),
             (["init", rows, bcap], None) => match (rows.parse::<u64>(), bcap.parse::<u64>()) {
-                (Ok(rows), Ok(bcap)) if bcap >= 1 && bcap.is_power_of_two() && rows <= 20_000 => match start_world(dir, rows, bcap).await {
+                (Ok(rows), Ok(bcap)) if bcap >= 1 && bcap.is_power_of_two() && rows <= 20_000 => match start_world(dir, rows, bcap, attempt).await {
                     Ok(world) => {
                         w = Some(world);
                         Ok(format!("ok r{rows} eoq:0"))
@@ -1270,10 +1314,10 @@ impl Prop for C12 {
     fn exec_case(&self, ops: &[String]) -> CaseResult {
         let mut res = CaseResult::default();
         let mut last_err = String::new();
-        for _attempt in 0..2 {
+        for attempt in 0..2u32 {
             let dir = TmpDir::new("c12");
             let rt = tokio::runtime::Builder::new_multi_thread().worker_threads(4).enable_all().build().expect("runtime");
-            let r = rt.block_on(run_case(ops, dir.path()));
+            let r = rt.block_on(run_case(ops, dir.path(), attempt));
             rt.shutdown_background();
             drop(dir);
             match r {
@@ -1418,6 +1462,23 @@ fn gen_client(rng: &mut Rng) -> Vec<String> {
 fn gen_case(rng: &mut Rng, tier: Tier, index: usize) -> Vec<String> {
     if rng.chance(1, 6) {
         return gen_client(rng);
+    }
+    if tier == Tier::Thorough && index % 75 == 33 {
+        // more events than the catch-up queue holds while the first read is held
+        let mode = if rng.chance(1, 2) { "new".to_string() } else { "from:0".to_string() };
+        let extra = rng.range(1, 300);
+        let mut ops = vec![format!("init {} 16384", rng.range(2, 5)), format!("w ins {}", rng.range(3, 6)), "pub all".to_string(), format!("attach a {mode} hold")];
+        ops.push(format!("w ins {}", 10240 + extra));
+        if rng.chance(1, 2) {
+            ops.push(format!("pub {}", 10240 + rng.range(0, extra)));
+        } else {
+            ops.push(format!("pub {}", rng.range(9000, 10240)));
+        }
+        ops.push("release a".into());
+        ops.push("recv a".into());
+        ops.push("pub all".into());
+        ops.push("recv a".into());
+        return ops;
     }
     let rows = rng.range(2, 6);
     let bcap = *rng.pick(&[16u64, 64, 16384]);
@@ -1595,7 +1656,7 @@ fn gen_case(rng: &mut Rng, tier: Tier, index: usize) -> Vec<String> {
 }
 
 /// pinned shapes that every run must contain
-fn enumerated(tier: Tier, index: usize) -> Option<Vec<String>> {
+fn enumerated(_tier: Tier, index: usize) -> Option<Vec<String>> {
     let s = |v: &[&str]| -> Option<Vec<String>> { Some(v.iter().map(|x| x.to_string()).collect()) };
     match index {
         // events committed and published while the snapshot read is held: re-read from the log
@@ -1613,8 +1674,11 @@ fn enumerated(tier: Tier, index: usize) -> Option<Vec<String>> {
         // a snapshot larger than the row channel: the read transaction is still open while the matcher commits
         6 => s(&["init 10300 16", "w upd 2", "pub all", "attach a new hold", "w upd 3", "w del 1", "pub all", "release a", "recv a", "w ins 1", "pub all", "recv a"]),
         // more buffered events than the catch-up queue holds
-        7 if tier == Tier::Thorough => s(&["init 3 16384", "w ins 2", "pub all", "attach a new hold", "w ins 10300", "pub all", "release a", "recv a"]),
-        7 => s(&["init 3 16", "attach a new free", "w ins 2", "pub all", "recv a"]),
+        7 => s(&["init 3 16384", "w ins 2", "pub all", "attach a new hold", "w ins 10300", "pub all", "release a", "recv a"]),
+        // ... and fewer than it holds: all of them go through the buffer filter, live forwarding continues
+        12 => s(&["init 3 16384", "w ins 4", "pub all", "attach a from:0 hold", "w ins 10400", "pub 10000", "release a", "recv a", "pub all", "recv a"]),
+        // several subscribers at different stages, events in flight at both hand-overs
+        13 => s(&["init 3 16", "w ins 2", "attach a new hold", "w ins 2", "pub 3", "attach b from:1 hold", "w upd 3", "release a", "pub 2", "release b", "recv a", "recv b", "attach c skip free", "pub all", "w del 1", "pub all", "recv a", "recv b", "recv c"]),
         // the client library on gaps, duplicates, resume after a dropped connection
         8 => s(&["client - cols,row,eoq:3,c:4,c:5,c:7,c:8,c:6"]),
         9 => s(&["client 5 c:6,c:6,c:7"]),
